@@ -447,6 +447,9 @@ func errSource(x ssa.Value) *ssa.Call {
 			if s := ir.SingleStore(v.X); s != nil {
 				return errSource(s)
 			}
+			if s := ir.LocalLoadValue(v); s != nil {
+				return errSource(s)
+			}
 		}
 	}
 	return nil
